@@ -271,18 +271,24 @@ class Run(object):
                 new.append(key)
         os.makedirs(os.path.join(VERIF, "replays"), exist_ok=True)
         lines = []
+        def write_replay(key, overwrite=True):
+            v = part.violations[key]
+            path = os.path.join(VERIF, "replays", "%s-%s.json" % (self.prop, safe(key.split("/", 1)[-1])))
+            if overwrite or not os.path.exists(path):
+                doc = {"property": self.prop, "key": key, "tier": self.tier, "seed": self.seed, "repo_head": head, "dirty": dirty,
+                       "what": v["what"], "count": v["count"], "case": v["case"], "expected": v["expected"], "observed": v["observed"],
+                       "repro": v["repro"]}
+                with open(path, "w") as f:
+                    json.dump(doc, f, indent=1, sort_keys=True)
+            return path
         for key in seen_known:
             v = part.violations[key]
+            write_replay(key, overwrite=False)      # the committed replay of a listed finding is kept as it is
             print("KNOWN-FINDING: property=%s key=%s (%d cases) %s" % (self.prop, key, v["count"], known[(self.prop, key)].get("what", v["what"])))
         rc = 0
         for key in new:
             v = part.violations[key]
-            path = os.path.join(VERIF, "replays", "%s-%s.json" % (self.prop, safe(key.split("/", 1)[-1])))
-            doc = {"property": self.prop, "key": key, "tier": self.tier, "seed": self.seed, "repo_head": head, "dirty": dirty,
-                   "what": v["what"], "count": v["count"], "case": v["case"], "expected": v["expected"], "observed": v["observed"],
-                   "repro": v["repro"]}
-            with open(path, "w") as f:
-                json.dump(doc, f, indent=1, sort_keys=True)
+            path = write_replay(key)
             print("  %s: %s  [%d cases]" % (key, v["what"], v["count"]))
             print("    expected: %s" % (json.dumps(v["expected"])[:300],))
             print("    observed: %s" % (json.dumps(v["observed"])[:300],))
